@@ -1,9 +1,19 @@
 SPEC = {
     "bins": [
         {"name": "c11", "pkg": "./zz_verif/c11", "run": "^TestC11Seq", "shards": {"quick": 1, "thorough": 8}},
+        {"name": "c11conc", "pkg": "./zz_verif/c11", "run": "^TestC11Conc", "race": True, "shards": {"quick": 4, "thorough": 16}},
     ],
-    "rule": "TODO",
-    "assumptions": COMMON_ASSUME,
+    "rule": "(a) sequential histories: rapid draws call sequences over a pool of library objects (group elements/scalars of the 4 groups, Goldilocks points/scalars, BLS12-381 G1/G2/scalars incl. pairings, FourQ points, "
+            "polynomial / secret-sharing objects, P-384 big-integer API) with deliberate aliasing (receiver = operand, equal operands, operands returned by constructors) and 'decode into a used object' steps; every call is replayed on fresh objects decoded "
+            "from the operands' model bytes, and after every step every pool object must serialise to its model and every constructor must return what it returned at process start; a table of 35 key types is decoded repeatedly into one object with uses in between and compared with a fresh decode. "
+            "(b) concurrency (-race build): per plan a freshly unmarshalled key / scheme / suite is used by 2..16 goroutines behind a barrier (sign, verify, encapsulate, decapsulate, Public(), HPKE setup/open, OPRF evaluate/finalize, threshold-RSA Sign, table-based multiplications, separately constructed generators); "
+            "each result must equal the same call made alone on an independent copy and the race detector must stay silent. non-trivial = history with an aliased call, a decode into a used object, a use between two decodes, or a concurrent plan; distinct by FNV-64 of the history / (plan kind, trial)",
+    "assumptions": COMMON_ASSUME + ["the harness does not own the Go scheduler: an interleaving that needs one precise preemption point may be missed; race reports are attributed to the first circl function of the report",
+                                    "decode(encode(x)) == x for the objects in the pool (that is property C09's subject)"],
     "budget": {"quick": 900, "thorough": 5400},
 }
-MANIFEST = {"technique": "TODO", "text": "TODO", "note": "TODO"}
+MANIFEST = {
+    "technique": "stateful model-based property testing (rapid histories replayed on fresh objects, invariant after every step) plus race-detector stress of generated concurrency plans compared with sequential results",
+    "text": "Sequential part: generated call histories with deliberate aliasing over object pools of each package; the model of each object is the canonical serialisation obtained by replaying every call on fresh objects, so any call that changes an operand other than its receiver, any constructor that hands out shared storage, and any decoder that does not fully overwrite its receiver shows up as a pool object or constructor whose serialisation drifts from the model. Concurrent part: read-only operations on freshly unmarshalled shared keys/schemes/suites run in 2..16 goroutines under the race detector and every result is compared with the sequential result on an independent copy. Exploration is the right level: histories and schedules are unbounded and the scheduler is not controlled.",
+    "note": "schedule coverage is whatever the Go scheduler produces under stress (16 cores, barrier start, first use of lazily cached fields always concurrent); only keys, schemes, suites, tables and separately constructed values are shared, as the property states",
+}
